@@ -3,7 +3,7 @@
 
 use std::collections::{BTreeSet, HashMap, VecDeque};
 
-use crate::refx::{Marker, RefAut};
+use crate::{kern::RefAut, refx::Marker};
 
 const NONE: u32 = u32::MAX;
 
@@ -186,8 +186,6 @@ pub struct Product {
     /// product states in BFS order with the shortest word reaching them
     pub pairs: Vec<(u32, u32)>,
     pub words: Vec<Vec<u8>>,
-    /// bytes whose behaviour differed from their class representative on the implementation side
-    pub class_split: u64,
 }
 
 fn mk_mismatch(kind: &'static str, word: Vec<u8>, r: &RefAut, i: &ImplAut) -> Mismatch {
@@ -295,7 +293,7 @@ pub struct Words {
 pub fn words_from(p: &Product, r: &RefAut, max_len: usize, extra_bytes: &[u8]) -> Words {
     let mut acc: BTreeSet<Vec<u8>> = BTreeSet::new();
     let mut rej: BTreeSet<Vec<u8>> = BTreeSet::new();
-    let mut classify = |w: Vec<u8>, acc: &mut BTreeSet<Vec<u8>>, rej: &mut BTreeSet<Vec<u8>>| {
+    let classify = |w: Vec<u8>, acc: &mut BTreeSet<Vec<u8>>, rej: &mut BTreeSet<Vec<u8>>| {
         if w.len() > max_len {
             return;
         }
